@@ -140,7 +140,8 @@ let has_failed_call (obs : string) : bool =
 let c09_oracles (ops : string list) (impl : res list list list) : (string * bool) list =
   let starts_with p s = String.length s >= String.length p && String.sub s 0 (String.length p) = p in
   let field s i = (try List.nth (String.split_on_char ':' s) i with _ -> "") in
-  let next_id = ref 0 and ids_ok = ref true in
+  let next_id = ref 0 and ids_ok = ref true and seen_ids = ref [] in
+  let failed_input = ref false and once_after_fail_ok = ref true in
   let conn_reqs = ref [] and pub_reqs = ref [] and play_reqs = ref [] in      (* outstanding ids by kind *)
   let connected = ref false and gate_ok = ref true in
   let consumed = ref [] and once_ok = ref true in
@@ -158,8 +159,10 @@ let c09_oracles (ops : string list) (impl : res list list list) : (string * bool
        let id = int_of_string id in
        let outstanding = List.mem id !conn_reqs || List.mem_assoc id !pub_reqs || List.mem_assoc id !play_reqs in
        if not outstanding || List.mem id !consumed then begin
-         (* never issued, or already accepted / rejected: must be refused *)
-         if not (List.exists (function Other s -> s = "ERR:InvalidRequestId" | _ -> false) all) then once_ok := false
+         (* never surfaced, or already accepted / rejected: must be refused.  After a handle_input call that returned an error the
+            session may hold requests whose events were dropped with that error (known finding K3): attributed to its own oracle *)
+         if not (List.exists (function Other s -> s = "ERR:InvalidRequestId" | _ -> false) all) then
+           (if !failed_input then once_after_fail_ok := false else once_ok := false)
        end else begin
          consumed := id :: !consumed;
          if List.exists (function Other s -> s = "ERR:InvalidRequestId" | _ -> false) all then once_ok := false;
@@ -169,18 +172,24 @@ let c09_oracles (ops : string list) (impl : res list list list) : (string * bool
            (match List.assoc_opt id !play_reqs with Some key -> bump accepted_play key | None -> ())
          end
        end
+     | "in" :: _ -> if errored then failed_input := true
      | _ -> ());
+    (* a surfaced request id is fresh: never surfaced before (ids need not be consecutive: a request whose event was dropped with a
+       failing call still consumed its id) *)
+    let fresh s = (let id = int_of_string (field s 2) in
+                   if List.mem id !seen_ids || (not !failed_input && id <> !next_id) then ids_ok := false;
+                   seen_ids := id :: !seen_ids; next_id := id + 1; id) in
     List.iter (function
       | Other s when starts_with "E:ConnReq:" s ->
-        if int_of_string (field s 2) <> !next_id then ids_ok := false; conn_reqs := !next_id :: !conn_reqs; incr next_id
+        let id = fresh s in conn_reqs := id :: !conn_reqs
       | Other s when starts_with "E:PubReq:" s ->
-        if int_of_string (field s 2) <> !next_id then ids_ok := false;
+        let id = fresh s in
         if not !connected then gate_ok := false;
-        pub_reqs := (!next_id, field s 4) :: !pub_reqs; incr next_id
+        pub_reqs := (id, field s 4) :: !pub_reqs
       | Other s when starts_with "E:PlayReq:" s ->
-        if int_of_string (field s 2) <> !next_id then ids_ok := false;
+        let id = fresh s in
         if not !connected then gate_ok := false;
-        play_reqs := (!next_id, field s 4) :: !play_reqs; incr next_id
+        play_reqs := (id, field s 4) :: !play_reqs
       | Other s when starts_with "E:PubFin:" s ->
         let key = field s 3 in bump finished_pub key; if count finished_pub key > count accepted_pub key then fin_ok := false
       | Other s when starts_with "E:PlayFin:" s ->
@@ -191,6 +200,7 @@ let c09_oracles (ops : string list) (impl : res list list list) : (string * bool
   with Invalid_argument _ -> ());
   if List.exists (fun calls -> List.exists (List.exists (function Other "NOSESSION" -> true | _ -> false)) calls) impl then [] else
   [ "C09.request_ids_fresh", !ids_ok; "C09.requests_only_when_connected", !gate_ok; "C09.accept_reject_once", !once_ok;
+    "C09.unsurfaced_id_refused_after_failed_input", !once_after_fail_ok;
     "C09.finished_not_more_than_accepted", !fin_ok; "C09.media_only_for_accepted_publish", !media_ok ]
 
 let oracle (toks : string list) (obs : string) : (string * bool) list =
